@@ -178,3 +178,6 @@ def replays(failed):
     ]
     for c in cases:
         yield c
+    yield ("a shorter source is a reported error", "xs := [0, 1, 2, 3, 4]\nxs[1:4] = [\"x\", \"y\"]\nprint(0)\n", _expect_error)
+    yield ("a longer source is a reported error", "xs := [0, 1, 2]\nxs[0:1] = [7, 8]\nprint(0)\n", _expect_error)
+    yield ("exactly the range is replaced", "xs := [0, 1, 2, 3, 4]\nxs[1:3] = [7, 8]\nprint(xs == [0, 7, 8, 3, 4])\nxs[3:] = [9, 9]\nprint(xs == [0, 7, 8, 9, 9])\nxs[:1] = [5]\nprint(xs[0])\n", _expect_stdout("true\ntrue\n5\n"))
